@@ -266,7 +266,70 @@ pub fn check_one(d: Dialect, tpl: &str, nvals: usize, watch: Option<&Counter>) -
     Ok(true)
 }
 
+/// inject_parameters(build(stmt)) == to_string(stmt) over the statement state machines
+fn inject_check_select(sys: &crate::smodel::SelSys, _spec: &crate::qmodel::SelSpec) -> Vec<crate::explore::Fail> {
+    let mut fails = vec![];
+    for d in DIALECTS {
+        let r = catch(|| match d {
+            Dialect::Mysql => (sys.stmt(d).to_string(MysqlQueryBuilder), sys.stmt(d).build(MysqlQueryBuilder)),
+            Dialect::Postgres => (sys.stmt(d).to_string(PostgresQueryBuilder), sys.stmt(d).build(PostgresQueryBuilder)),
+            Dialect::Sqlite => (sys.stmt(d).to_string(SqliteQueryBuilder), sys.stmt(d).build(SqliteQueryBuilder)),
+        });
+        if let Ok((inline, (sql, vals))) = r {
+            fails.extend(inject_compare(d, &inline, &sql, vals.0));
+        }
+    }
+    fails
+}
+fn inject_check_dml(_k: crate::dml::Kind, sys: &crate::dml::DSys, _spec: &crate::dml::DSpec) -> Vec<crate::explore::Fail> {
+    let mut fails = vec![];
+    for d in DIALECTS {
+        if let Ok((inline, (sql, vals))) = catch(|| (sys.stmt(d).to_string_d(d), sys.stmt(d).build_d(d))) {
+            fails.extend(inject_compare(d, &inline, &sql, vals.0));
+        }
+    }
+    fails
+}
+static INJECTED: Counter = Counter::new();
+fn inject_compare(d: Dialect, inline: &str, sql: &str, vals: Vec<Value>) -> Vec<crate::explore::Fail> {
+    INJECTED.inc();
+    match inject(d, sql, vals) {
+        Ok(x) if x == inline => vec![],
+        Ok(x) => {
+            let f = crate::explore::Fail::new("inject-differs", format!("{}: inject_parameters({:?}) = {:?}, to_string = {:?}", d.name(), sql, x, inline));
+            // the oracle can name the input class itself: on SQLite a string literal whose content ends in a
+            // backslash (not an escape character there) followed by a placeholder
+            if d == Dialect::Sqlite {
+                if let Ok(toks) = crate::lex::lex(d, sql) {
+                    let lit = toks.iter().position(|t| matches!(&t.tok, crate::lex::Tok::Str(s) if s.ends_with('\\')));
+                    let par = toks.iter().rposition(|t| matches!(t.tok, crate::lex::Tok::Param(_)));
+                    if let (Some(l), Some(p)) = (lit, par) {
+                        if l < p {
+                            let mut g = f;
+                            g.sig = "inject-differs-after-sqlite-literal-ending-in-backslash".into();
+                            return vec![g.keyed("sqlite")];
+                        }
+                    }
+                }
+            }
+            vec![f]
+        }
+        Err(p) => vec![crate::explore::Fail::new("inject-panic", format!("{}: inject_parameters({:?}) panicked: {p}", d.name(), sql))],
+    }
+}
+
 pub fn run(rep: &Arc<Report>) {
+    // (2) inject_parameters over the statement state machines
+    let depth = if rep.thorough() { 4 } else { 3 };
+    let sm = crate::smodel::SelModel { name: "select", menu: crate::smodel::select_menu(rep.thorough(), false), checks: vec![Box::new(inject_check_select)], sqlite_only: false };
+    let sst = crate::explore::explore(&sm, depth, u64::MAX, rep);
+    let mut stmt_states = sst.states;
+    for kind in [crate::dml::Kind::Insert, crate::dml::Kind::Update, crate::dml::Kind::Delete] {
+        let dm = crate::dml::DmlModel { kind, menu: crate::dml::dml_menu(kind, rep.thorough()), checks: vec![Box::new(inject_check_dml)] };
+        stmt_states += crate::explore::explore(&dm, depth + 1, u64::MAX, rep).states;
+    }
+    rep.set("statement_states_for_inject_parameters", json!(stmt_states));
+    rep.set("inject_parameters_comparisons_on_statements", json!(INJECTED.get()));
     let n = if rep.thorough() { 7 } else { 6 };
     let evals = Counter::new();
     let in_domain = Counter::new();
@@ -323,6 +386,20 @@ pub fn run(rep: &Arc<Report>) {
 }
 
 pub fn replay(case: &serde_json::Value) -> Option<String> {
+    if let Some(model) = case["model"].as_str() {
+        let ops: Vec<String> = case["ops"].as_array().map(|a| a.iter().filter_map(|x| x.as_str().map(String::from)).collect()).unwrap_or_default();
+        return match model {
+            "select" => crate::explore::replay_ops(&crate::smodel::SelModel { name: "select", menu: crate::smodel::select_menu(true, false), checks: vec![Box::new(inject_check_select)], sqlite_only: false }, &ops),
+            k => {
+                let kind = match k {
+                    "insert" => crate::dml::Kind::Insert,
+                    "update" => crate::dml::Kind::Update,
+                    _ => crate::dml::Kind::Delete,
+                };
+                crate::explore::replay_ops(&crate::dml::DmlModel { kind, menu: crate::dml::dml_menu(kind, true), checks: vec![Box::new(inject_check_dml)] }, &ops)
+            }
+        };
+    }
     let d = Dialect::from_name(case["dialect"].as_str().unwrap_or("sqlite"));
     let t = case["template"].as_str().unwrap_or("");
     let k = case["nvals"].as_u64().unwrap_or(0) as usize;
